@@ -224,7 +224,7 @@ def run(ctx: lib.Ctx) -> None:
     cases = []
     for doc in ctx_corpus(ctx):
         cases.append(doc)
-    ncases = ctx.n(450, 12000)
+    ncases = ctx.n(700, 12000)
     bls_signed = 0
     while len(cases) < ncases:
         c = gen_case(rng, keys, ctx.thorough)
